@@ -29,6 +29,11 @@ def run(tier, seed):
     alpha = ['save', 'restore', 'resume']
     progs = ['P01', 'P02', 'P03', 'P04', 'P05', 'P06', 'P07', 'P08', 'P10', 'P12', 'P13', 'P14', 'P20', 'P21', 'P22', 'P23', 'P24']
     rk = lambda m: {'medium': m, 'listener': False, 'check_roundtrip': True, 'inputs': INPUTS}   # noqa
+    # a checkpoint written from the paused hook at a step boundary (a pause requested while the step was in flight), as AiiDA does
+    pe = core_model.plan_entry
+    psave = [[]] + [[pe('on_paused', o, 'save')] for o in (1, 2)]
+    pp = dict(name='C08_paused_hook', progs=C.fam(['P04', 'P05', 'P14', 'P22'] if tier == 'quick' else ['P04', 'P05', 'P09', 'P14', 'P22', 'P25']),
+              plans=psave, alphabet=['pause', 'play', 'restore'] + ([] if tier == 'quick' else ['resume']), k=3 if tier == 'quick' else 4)
     if tier == 'quick':
         mc = [dict(name='C08_proc', progs=C.fam(progs), plans=save_plans((1, 2, 3, 4)), alphabet=alpha, k=3, invariants=PROC_INV)]
         rp = [dict(name='C08_proc', progs=C.fam(progs), plans=save_plans((1, 2, 3, 4)), alphabet=alpha, k=2, run_kw=rk('pickle')),
@@ -53,6 +58,8 @@ def run(tier, seed):
                 ('C08_outl_mem_late', om.sample(om.family(4, 3), 800, seed + 2), om.oracles(4), crash_sets(5, 2), 'mem', 1),
                 ('C08_outl_mem_late2', om.sample(om.family(4, 3), 400, seed + 4), om.oracles(4), crash_sets(5, 2), 'mem', 2),
                 ('C08_outl_pfile_late', om.sample(om.family(4, 3), 400, seed + 3), om.oracles(4), crash_sets(5, 2), 'pfile', 1)]
+    mc.append(dict(pp, invariants=['C07_SaveLoadSave']))
+    rp.append(dict(pp, run_kw=rk('pickle')))
     # outlines: TLC (stepper save/load inside the run) + every behaviour with real checkpoint/abandon/restore
     viol = 0
     ostates = ogen = oreplayed = 0
